@@ -17,7 +17,7 @@ fn still_fails(prop: &dyn Prop, ctx: &ExecCtx, wd: &Workdir, scn: &Scenario, cla
         Err(_) => return false,
     };
     let mut st = Stats::default();
-    let tries = if class.contains("schedule") { 3 } else { 1 };
+    let tries = if class.starts_with("C13") { 3 } else { 1 };
     for t in 0..tries {
         let outs2;
         let o = if t == 0 {
